@@ -142,6 +142,14 @@ def _get_meta(tree: ParseTree, parser: Lark) -> MetaData:
     )
 
 
+def _get_error_line(exception: Any, source: str) -> int:
+    # lark reports line -1 for an unexpected end of input: cite the last source line
+    if exception.line is not None and exception.line > 0:
+        return int(exception.line)
+
+    return len(source.split("\n"))
+
+
 class Token:
     """Metadata stub for any token."""
 
@@ -418,11 +426,10 @@ class FcpV2Transformer(Transformer):
             self.error_logger.add_source(filename.name, source)
             fcp_ast = fcp_parser.parse(source)
         except (UnexpectedCharacters, UnexpectedEOF) as e:
+            line = _get_error_line(e, source)
             return error(
                 self.error_logger.log_lark(filename.name, e),
-                Token(
-                    MetaData(e.line, e.line, e.column, e.column, 0, 0, str(filename))
-                ),
+                Token(MetaData(line, line, e.column, e.column, 0, 0, str(filename))),
             )
 
         fcp = FcpV2Transformer(
@@ -564,10 +571,11 @@ def _get_fcp(
     logger.add_source(filename.name, source)
     try:
         fcp_ast = fcp_parser.parse(source)
-    except UnexpectedCharacters as e:
+    except (UnexpectedCharacters, UnexpectedEOF) as e:
+        line = _get_error_line(e, source)
         return error(
             logger.log_lark(filename.name, e),
-            Token(MetaData(e.line, e.line, e.column, e.column, 0, 0, str(filename))),
+            Token(MetaData(line, line, e.column, e.column, 0, 0, str(filename))),
         )
 
     parser_context = ParserContext()
